@@ -29,6 +29,27 @@ def mountCheck : List AsmInput → (mounts : List Bytes) → Option AsmInput
 
 def sortInputs (xs : List AsmInput) : List AsmInput := sortBy (·.path) xs
 
+/-- the duplicate-path loop over the sorted inputs (since the `fix:`): the first input that sits at the path of its
+    predecessor -/
+def dupCheck : List AsmInput → Option AsmInput
+  | a :: b :: rest => if a.path = b.path then some b else dupCheck (b :: rest)
+  | _ => none
+
+inductive AsmVerdict
+  | duplicate (x : AsmInput)      -- rio-assembly-invalid: more than one input at a path
+  | underMount (x : AsmInput)     -- rio-assembly-invalid: an input under a mount
+  | proceed (order : List AsmInput)
+deriving DecidableEq, Repr
+
+/-- `Run`'s validation as a whole: sort, duplicate check, mount rule -/
+def asmVerdict (xs : List AsmInput) : AsmVerdict :=
+  let s := sortInputs xs
+  match dupCheck s with
+  | some d => .duplicate d
+  | none => match mountCheck s [] with
+    | some x => .underMount x
+    | none => .proceed s
+
 /-- the order in which `Run` processes the inputs and whether the mount rule refuses the assembly -/
 def asmPlan (xs : List AsmInput) : List AsmInput × Option AsmInput :=
   let s := sortInputs xs
